@@ -49,7 +49,7 @@ CONSTANTS
   Amounts,     \* amounts offered to balance.mint
   NSet,        \* committee sizes
   NnsEnv,      \* TRUE: the environment may register / fill alias domains in advance
-  Acts,        \* optional actions explored: subset of {"delete", "setEACL", "meta", "put2"}
+  Acts,        \* optional actions / argument shapes explored: subset of {"delete", "setEACL", "meta", "put2", "badkey"}
   MaxBal,      \* exploration bound
   Dev          \* deviation switches: behaviour of the code that the properties forbid
                \*   "StaleAlias": re-putNamed of a live container under another name keeps the old TXT record
@@ -81,7 +81,8 @@ AcctOf(o, nn) == IF o = AlphaOwner THEN ANode(AIdx(nn)) ELSE o
 \* transactions of ONE block; res/ntf/xfer belong to the first, res2/ntf2/xfer2 to the second transaction.
 Event2(act, S, c, v, nm, mt, c2, v2, nm2, mt2, o, k, amt, res, res2, ret, ntf, ntf2, xfer, xfer2) ==
   [act |-> act, S |-> S, c |-> c, v |-> v, nm |-> nm, meta |-> mt, c2 |-> c2, v2 |-> v2, nm2 |-> nm2, meta2 |-> mt2,
-   o |-> o, k |-> k, amt |-> amt, res |-> res, res2 |-> res2, ret |-> ret, ntf |-> ntf, ntf2 |-> ntf2, xfer |-> xfer, xfer2 |-> xfer2]
+   o |-> o, k |-> k, amt |-> amt, res |-> res, res2 |-> res2, ret |-> ret, ntf |-> ntf, ntf2 |-> ntf2, xfer |-> xfer, xfer2 |-> xfer2,
+   kb |-> FALSE]      \* kb: the publicKey argument of put / setEACL is not 33 bytes long
 Event(act, S, c, v, nm, mt, o, k, amt, res, ret, ntf, xfer) ==
   Event2(act, S, c, v, nm, mt, Nil, Nil, Nil, FALSE, o, k, amt, res, Nil, ret, ntf, <<>>, xfer, <<>>)
 
@@ -154,10 +155,13 @@ PutF(s, S, c, v, nm, mt) ==
             res |-> "HALT", ntf |-> <<Ntf("PutSuccess", c)>>,
             xfer |-> [k \in 1..s.n |-> Xf(AcctOf(o, s.n), ANode(k), f)]]
 
-Put(S, c, v, nm, mt) ==
-  LET r == PutF(Cur, S, c, v, nm, mt) IN
+\* kb: a publicKey that is not 33 bytes long.  The contract never looks at the key, but neofsid.addKey (empty token)
+\* refuses it and otherwise the PutSuccess notification does not fit its manifest type PublicKey: the invocation
+\* FAULTs at its very end, i.e. whatever else would have failed fails too.
+Put(S, c, v, nm, mt, kb) ==
+  LET r == IF kb THEN [s |-> Cur, res |-> "FAULT", ntf |-> <<>>, xfer |-> <<>>] ELSE PutF(Cur, S, c, v, nm, mt) IN
   /\ Assign(r.s)
-  /\ ev' = Event("put", S, c, v, nm, mt, Nil, Nil, 0, r.res, "null", r.ntf, r.xfer)
+  /\ ev' = [Event("put", S, c, v, nm, mt, Nil, Nil, 0, r.res, "null", r.ntf, r.xfer) EXCEPT !.kb = kb]
 
 \* two puts in one block: the second transaction runs on the result of the first
 Put2(S, c, v, nm, mt, c2, v2, nm2, mt2) ==
@@ -183,12 +187,14 @@ Delete(S, c) ==
        /\ ev' = Event("delete", S, c, Nil, Nil, FALSE, Nil, Nil, 0, "HALT", "null", <<Ntf("DeleteSuccess", c)>>, <<>>)
   ELSE Fault("delete", S, c, Nil, Nil, FALSE, Nil, Nil, 0)
 
-SetEACL(S, c, v) ==
-  IF x[c] # None /\ "ALPHA" \in S
+\* (kb: as for put, SetEACLSuccess carries the key as a PublicKey)
+SetEACL(S, c, v, kb) ==
+  IF x[c] # None /\ "ALPHA" \in S /\ ~kb
   THEN /\ eacl' = [eacl EXCEPT ![c] = v]
        /\ UNCHANGED <<x, oidx, tomb, meta, alias, dom, txt, bal, abal, fee, afee, n, idk>>
        /\ ev' = Event("setEACL", S, c, v, Nil, FALSE, Nil, Nil, 0, "HALT", "null", <<Ntf("SetEACLSuccess", c)>>, <<>>)
-  ELSE Fault("setEACL", S, c, v, Nil, FALSE, Nil, Nil, 0)
+  ELSE /\ UNCHANGED state
+       /\ ev' = [Event("setEACL", S, c, v, Nil, FALSE, Nil, Nil, 0, "FAULT", "null", <<>>, <<>>) EXCEPT !.kb = kb]
 
 \* netmap.setConfig(id, key, val), key in {"fee","afee"}
 SetConfig(S, k, val) ==
@@ -245,13 +251,17 @@ Hint(o) == LET b == BalOf(Cur, o) IN
                    (fee + afee) * n - b - 1, (fee + afee) * n - b, (fee + afee) * n - b + 1,
                    2 * fee * n - b - 1, 2 * fee * n - b, (2 * fee + afee) * n - b} : d > 0}
 
+\* the "publicKey of another length" flag: both values when explored exhaustively, one invocation in eight when drawn
+KBs(P(_)) == IF "badkey" \in Acts THEN {q = 1 : q \in P(1..8)} ELSE {FALSE}
 NextOf(P(_), PS(_)) ==
-  /\ \/ \E S \in PS(SignerSets), c \in P(PutCids), v \in P(Variants), nm \in P(Names \cup {Nil}) : Put(S, c, v, nm, FALSE)
-     \/ "meta" \in Acts /\ \E S \in PS(SignerSets), c \in P(PutCids), v \in P(Variants) : Put(S, c, v, Nil, TRUE)
+  /\ \/ \E S \in PS(SignerSets), c \in P(PutCids), v \in P(Variants), nm \in P(Names \cup {Nil}) :
+           \E kb \in KBs(P) : Put(S, c, v, nm, FALSE, kb)
+     \/ "meta" \in Acts /\ \E S \in PS(SignerSets), c \in P(PutCids), v \in P(Variants) : Put(S, c, v, Nil, TRUE, FALSE)
      \/ "put2" \in Acts /\ \E S \in PS(SignerSets), c \in P(PutCids), v \in P(Variants), nm \in P(Names \cup {Nil}) :
            \E c2 \in P(PutCids \ {c}), v2 \in P(Variants), nm2 \in P(Names \cup {Nil}) : Put2(S, c, v, nm, FALSE, c2, v2, nm2, FALSE)
      \/ "delete" \in Acts /\ \E S \in PS(SignerSets), c \in P(Cids) : Delete(S, c)
-     \/ "setEACL" \in Acts /\ \E S \in PS(SignerSets), c \in P(Cids), v \in P(Variants) : SetEACL(S, c, v)
+     \/ "setEACL" \in Acts /\ \E S \in PS(SignerSets), c \in P(Cids), v \in P(Variants) :
+           \E kb \in KBs(P) : SetEACL(S, c, v, kb)
      \/ \E S \in PS(SignerSets), k \in P({"fee", "afee"}), val \in P(Fees) : SetConfig(S, k, val)
      \/ \E S \in PS(SignerSets), o \in P(Owners) : \E m \in P(IF Amounts = {} THEN {} ELSE Amounts \cup Hint(o)) : Mint(S, o, m)
      \/ NnsEnv /\ \E S \in PS(SignerSets), nm \in P(Names), who \in P({"cmt", "x"}) : NnsReg(S, nm, who)
